@@ -45,6 +45,8 @@ FAMILIES: dict[str, dict] = {
     "optimizer_inline": {"grammars": ['COMMENT = _{ "x" ~ "y" }\na = { COMMENT }', 'c = { "x" }\ns = _{ c ~ "y" }\na = { #tt=s ~ s? }', 'c = { "x" }\na = { #tt=(c)+ }', 's = _{ "x" ~ s? ~ "y" }\na = { s }', 'WHITESPACE = _{ " " }\ns = _{ "x" ~ "y" }\na = @{ s ~ s }'], "alphabet": "xy ", "n": 5},
     "optimizer_unicode": {"grammars": ['a = { (LETTER | "_") ~ (LETTER | ASCII_DIGIT | "_")* }', 'a = { (HAN | "x" | "xy")+ }'], "alphabet": "x_1\u00e9\u4e00", "n": 3},
     "comment_only": {"grammars": ['COMMENT = _{ "#" ~ (!"!" ~ ANY)* ~ "!" }\na = { "x" ~ "y" }', 'COMMENT = _{ "#" ~ (!"!" ~ ANY)* ~ "!" }\nb = { "x" }\na = { b* ~ "y" }'], "alphabet": "xy#!", "n": 6},
+    "tags": {"grammars": ['b = { "x" }\na = { #t = b }', 'b = { "x" }\na = { #t = b ~ "y"? }', 'b = { "x" }\nc = { "y" }\na = { #t = b ~ #u = c }', 'c = { "x" }\nb = { #u = c }\na = { #t = b }',
+                          'c = { "x" }\nb = { c ~ c? }\na = { #t = b ~ "y"? }', 'b = { "x" }\na = { (#t = b)+ }', 'b = { "x" }\na = { #t = b | #u = ("y" ~ b) }'], "alphabet": "xy", "n": 4},
     "atomic_visibility": {"grammars": ['d = { "y" }\nb = ${ d }\na = @{ "x" ~ b }', 'd = { "y" }\na = @{ "x" ~ d }'], "alphabet": "xy", "n": 2},
 }
 
